@@ -414,6 +414,9 @@ func buildReflDoc(r *rng) *document.Document {
 			d.Body.Elements = append(d.Body.Elements, t)
 		}
 	}
+	if r.chance(25) {
+		d.Body.Elements = append(d.Body.Elements, reflSDT(r, 2, density))
+	}
 	if r.chance(50) {
 		sp := &document.SectionProperties{}
 		reflFill(r, reflect.ValueOf(sp).Elem(), 3, 50)
@@ -427,6 +430,43 @@ func buildReflDoc(r *rng) *document.Document {
 		d.Body.Elements = append(d.Body.Elements, sp)
 	}
 	return d
+}
+
+// reflSDT: a structured document tag whose content mixes every element kind its reader reacts to
+func reflSDT(r *rng, depth int, density int) *document.SDT {
+	s := &document.SDT{}
+	reflFill(r, reflect.ValueOf(s).Elem(), 5, density)
+	if s.Content == nil && r.chance(80) {
+		s.Content = &document.SDTContent{}
+	}
+	if s.Content == nil {
+		return s
+	}
+	for i, n := 0, r.intn(4); i < n; i++ {
+		switch r.intn(6) {
+		case 0:
+			p := &document.Paragraph{}
+			reflFill(r, reflect.ValueOf(p).Elem(), 6, density)
+			s.Content.Elements = append(s.Content.Elements, p)
+		case 1:
+			t := &document.Table{}
+			reflFill(r, reflect.ValueOf(t).Elem(), 5, density)
+			s.Content.Elements = append(s.Content.Elements, t)
+		case 2:
+			run := document.Run{}
+			reflFill(r, reflect.ValueOf(&run).Elem(), 4, density)
+			s.Content.Elements = append(s.Content.Elements, run)
+		case 3:
+			s.Content.Elements = append(s.Content.Elements, &document.BookmarkStart{ID: reflTokens[r.intn(3)], Name: "_Toc" + reflTokens[r.intn(3)]})
+		case 4:
+			s.Content.Elements = append(s.Content.Elements, &document.BookmarkEnd{ID: reflTokens[r.intn(3)]})
+		case 5:
+			if depth > 0 {
+				s.Content.Elements = append(s.Content.Elements, reflSDT(r, depth-1, density))
+			}
+		}
+	}
+	return s
 }
 
 // ---- stream C: the elements the reader is known to drop ------------------------------------------
@@ -553,6 +593,9 @@ func runC03(cfg *runCfg) error {
 		feat.hit("doc:" + kind)
 		before := bodyDump(d)
 		before.fieldsSet(fieldsHit)
+		if before.hasType("SDT") {
+			feat.hit("body:structured document tag")
+		}
 		res.Evaluations++
 		fail := func(clause, class, detail string) {
 			failCount[class]++
